@@ -1,5 +1,5 @@
 //! Types of the translated Rust subset and the tables built from the configuration.
-use std::collections::BTreeMap;
+use std::collections::{BTreeMap, BTreeSet};
 
 pub type R<T> = Result<T, String>;
 
@@ -307,8 +307,19 @@ pub struct ExternInfo {
     pub statics: Vec<(String, Vec<Ty>, Ty, String)>,
 }
 
+/// what a source file defines itself (to detect that a bare name in it cannot mean a configured item of another file)
+#[derive(Default, Clone, Debug)]
+pub struct FileDefs {
+    pub fns: BTreeSet<String>,
+    pub consts: BTreeSet<String>,
+    pub types: BTreeSet<String>,
+    /// inherent methods: (type identifier, method)
+    pub inherent: BTreeSet<(String, String)>,
+}
+
 #[derive(Default)]
 pub struct Tables {
+    pub file_defs: BTreeMap<String, FileDefs>,
     pub externs: BTreeMap<String, ExternInfo>,
     /// macro parameters in declaration order
     pub mvars: Vec<MVar>,
@@ -359,7 +370,37 @@ impl Tables {
     }
     /// the table entry a type name written in `cur_file` refers to.  Keys may carry a module qualifier
     /// (`rectangle.Points`, `line.Points`) when two Rust types share an identifier.
+    fn origin_file(&self, key: &str) -> String {
+        match self.adts.get(key) {
+            Some(Adt::Struct(s)) => s.origin.rsplit_once(':').map(|x| x.0.to_string()).unwrap_or_default(),
+            Some(Adt::Enum(e)) => e.origin.rsplit_once(':').map(|x| x.0.to_string()).unwrap_or_default(),
+            None => String::new(),
+        }
+    }
+
+    /// the file defines a type of this name itself, but the configured one comes from another file: not the same type
+    pub fn shadowed_type(&self, key: &str, cur_file: &str) -> bool {
+        let base = key.rsplit('.').next().unwrap().split('<').next().unwrap();
+        match self.file_defs.get(cur_file) {
+            Some(d) if d.types.contains(base) => {
+                let o = self.origin_file(key);
+                !o.is_empty() && o != cur_file && !o.contains("core::")
+            }
+            _ => false,
+        }
+    }
+
     pub fn resolve_name(&self, name: &str, cur_file: &str, self_ty: Option<&str>) -> Option<Ty> {
+        let r = self.resolve_name0(name, cur_file, self_ty);
+        if let Some(Ty::Adt(k)) = &r {
+            if self.shadowed_type(k, cur_file) {
+                return None;
+            }
+        }
+        r
+    }
+
+    fn resolve_name0(&self, name: &str, cur_file: &str, self_ty: Option<&str>) -> Option<Ty> {
         if self.adts.contains_key(name) {
             return Some(Ty::Adt(name.to_string()));
         }
